@@ -99,7 +99,7 @@ def run(ctx):
     ctx.check("P4-check-before-destruction", wc, any("UnsyncedBranches" in r_ for r_ in rs) and "reference_branch.last_revision() != self.local_branch.last_revision()" in norm(fc), "replacing a branch by a reference to a branch with another tip raises UnsyncedBranches")
     # ---- P5: upgrade refuses an incompatible target before anything is moved ---------------------------------------
     UPG = "breezy/upgrade.py"
-    fu, gu, wu = fn_cfg(ctx, UPG, "Convert.convert", roles={"converter": ("assign", "~self\\.controldir\\._format\\.get_converter\\(.*\\)")})
+    fu, gu, wu = fn_cfg(ctx, UPG, "Convert.convert", roles={"converter": ("assign", "~self\\.controldir\\._format\\.get_converter\\([^()]*\\)")})
     bk = need(wu, calling(gu, attr="backup_bzrdir", recv="self.controldir"), "self.controldir.backup_bzrdir()")
     cv = need(wu, calling(gu, attr="convert", recv="converter"), "converter.convert(...)")
     pre = calling(gu, attr="check_conversion_target", recv="self.controldir")
